@@ -27,6 +27,87 @@ func replayOpenAPI(eng *Engine) string {
 	return runKitReplay(eng, replayOpenAPISrc, "zz_govc_openapi_test.go", "TestGovcOpenAPIReplay", "OpenAPI export of documents on the real code (package kit):")
 }
 
+//go:embed replay_tree_test.go.tmpl
+var replayTreeSrc string
+
+// treeChecks: BOUNDED oracles that rewrite corpus documents at directive boundaries taken from the tree the real scanning
+// phase builds (package core overlay; see the template). Never counted as proved.
+func (e *Engine) treeChecks(id string) []fdResult {
+	type orc struct{ oracle, name, goal string }
+	var list []orc
+	split := orc{"SPLIT", "core.JApiCore/bounded/tree-include-split#1", "every directive subtree (any depth) of the accepted corpus documents moved into an INCLUDEd file, two sibling subtrees moved into two files, and the children of a directive moved - in an explicit ( ) context that begins the included file - into an INCLUDEd file (about 3000 splits): same catalog bytes"}
+	parens := orc{"PARENS", "core.JApiCore/bounded/tree-explicit-context#1", "the children of every directive with an implicit context put into an explicit ( ) context (about 540 rewrites): same catalog bytes"}
+	layout := orc{"LAYOUT", "core.JApiCore/bounded/tree-layout#1", "blank lines, '#' comments and '###' block comments in front of every directive line, blanks appended to directive lines, two more columns of indentation (about 10 000 rewrites): same catalog bytes"}
+	switch id {
+	case "C09":
+		list = []orc{split}
+	case "C11":
+		list = []orc{parens, split}
+	case "C08":
+		list = []orc{parens, layout}
+	}
+	var res []fdResult
+	for _, o := range list {
+		os.Setenv("GOVC_ORACLE", o.oracle)
+		out := runPkgReplayFiles(e, "core", map[string]string{"zz_govc_tree_test.go": replayTreeSrc}, "TestGovcTreeOracle", "tree oracle "+o.oracle+" on the real builder (package core):")
+		res = append(res, fdResult{Name: o.name, Props: []string{id}, Goal: "BOUNDED (4 built-in documents and the accepted documents of /repo/testdata without INCLUDE/MACRO, directive boundaries from the scanned tree): " + o.goal + " (bounded sample, not a proof)",
+			OK: strings.Contains(out, "DONE tried=") && !strings.Contains(out, "REPRODUCED input"), Detail: out})
+	}
+	return res
+}
+
+//go:embed replay_scancorpus_test.go.tmpl
+var replayScanCorpusSrc string
+
+// scanCorpusChecks: BOUNDED run of the C12/C13 monitor of the scanner replay over the documents of /repo/testdata, their
+// prefixes and (thorough) their single-byte edits. Never counted as proved.
+func (e *Engine) scanCorpusChecks(id, tier string) []fdResult {
+	if id != "C12" && id != "C13" {
+		return nil
+	}
+	os.Unsetenv("GOVC_DEEP")
+	if tier == "thorough" {
+		os.Setenv("GOVC_DEEP", "1")
+	}
+	out := runPkgReplayFiles(e, "scanner", map[string]string{"zz_govc_replay_test.go": replayScannerSrc, "zz_govc_scancorpus_test.go": replayScanCorpusSrc},
+		"TestGovcScanCorpus", "C12/C13 monitor on the real scanner over the corpus:")
+	return []fdResult{{Name: "scanner.Scanner/bounded/corpus-lexeme-monitor#1", Props: []string{id},
+		Goal: "BOUNDED (every document of /repo/testdata, every prefix of those up to 800 bytes; thorough: 6000 bytes and every single-byte deletion / 15 substitutions per byte of those up to 400 bytes): the scanner fails with an error index inside the file or yields lexemes inside the file, in text order, not overlapping, well-bracketed per directive; only the language's keywords are accepted, each followed by a separator (bounded sample, not a proof)",
+		OK:   strings.Contains(out, "DONE tried=") && !strings.Contains(out, "REPRODUCED input"), Detail: out}}
+}
+
+func runPkgReplayFiles(eng *Engine, pkgDir string, files map[string]string, test, title string) string {
+	tmp, err := os.MkdirTemp("", "govcreplay")
+	if err != nil {
+		return ""
+	}
+	defer os.RemoveAll(tmp)
+	repl := map[string]string{}
+	for file, src := range files {
+		testFile := filepath.Join(tmp, file)
+		_ = os.WriteFile(testFile, []byte(src), 0o644)
+		repl[filepath.Join(eng.repo, pkgDir, file)] = testFile
+	}
+	ovb, _ := json.Marshal(map[string]map[string]string{"Replace": repl})
+	ovFile := filepath.Join(tmp, "overlay.json")
+	_ = os.WriteFile(ovFile, ovb, 0o644)
+	cmd := exec.Command("go", "test", "-overlay", ovFile, "-vet=off", "-count=1", "-timeout", "900s", "-v", "-run", test, "./"+pkgDir)
+	cmd.Dir = eng.repo
+	cmd.Env = append(os.Environ(), "GOFLAGS=-mod=mod", "GOPROXY=off", "GOSUMDB=off", "GOTOOLCHAIN=local",
+		"GOVC_REPO_TESTDATA="+filepath.Join(eng.repo, "testdata"))
+	outB, _ := cmd.CombinedOutput()
+	var keep []string
+	for _, l := range strings.Split(string(outB), "\n") {
+		if strings.HasPrefix(l, "GOVC ") {
+			keep = append(keep, l[5:])
+		}
+	}
+	if len(keep) == 0 {
+		return "replay harness produced no result:\n" + string(outB)
+	}
+	return title + "\n" + strings.Join(keep, "\n") + "\n"
+}
+
 //go:embed replay_corpus_test.go.tmpl
 var replayCorpusSrc string
 
